@@ -124,7 +124,8 @@ package statefulset
 //@   profile defaulted requires [C05] onestep: gMonotonic ==> gNact == 0
 //@   profile defaulted requires [C05] scaleinready: gMonotonic && condemnedP(pod) ==> (forall o int32 :: desiredG(o) ==> snapReadyAt(o))
 //@   profile defaulted requires [C05] scaleintop: gMonotonic && condemnedP(pod) ==> (forall k int :: {gSnap[k]} 0 <= k && k < len(gSnap) && condemnedP(gSnap[k]) ==> ordOf(gSnap[k]) <= ordOf(pod))
-//@   profile defaulted requires [C05] updatelast: gMonotonic && !condemnedP(pod) && !replaceable(pod) ==> (forall k int :: {gSnap[k]} 0 <= k && k < len(gSnap) ==> !condemnedP(gSnap[k])) && (forall o int32 :: desiredG(o) ==> snapHealthyAt(o) || o == ordOf(pod))
+//@   profile defaulted requires [C05] updatelast: gMonotonic && !condemnedP(pod) && !replaceable(pod) ==> (forall k int :: {gSnap[k]} 0 <= k && k < len(gSnap) ==> !condemnedP(gSnap[k]))
+//@   profile defaulted requires [C05] updatehealthy: gMonotonic && !condemnedP(pod) && !replaceable(pod) ==> (forall o int32 :: desiredG(o) ==> snapHealthyAt(o) || o == ordOf(pod))
 //@   profile defaulted requires [C07] forupdate: !condemnedP(pod) && !replaceable(pod) ==> gStrategy != "OnDelete" && ordOf(pod) >= gPartition && revOf(pod) != gUpdRev && gUpdDeletes == 0 && (forall o int32 :: o > ordOf(pod) && desiredG(o) ==> snapUpdatedAt(o))
 //@   modifies ghost gNact, gActOrd, gDeleted, gReplaceDue, gUpdDeletes
 //@   noalloc
@@ -173,7 +174,7 @@ package statefulset
 //@   trusted "temporarily assumed: built from newStatefulSetPod (see C06)"
 //@   requires currentSet != nil && updateSet != nil
 //@   requires 0 <= ordinal
-//@   ensures result != nil && fresh(result) && ordOf(result) == ordinal && !isCreatedS(result) && !isTerminatingS(result)
+//@   ensures result != nil && fresh(result) && ordOf(result) == ordinal && !isCreatedS(result) && !isTerminatingS(result) && allocated(result.Labels)
 //@   ensures [C07] revOf(result) == ite(usesCurrent(currentSet, ordinal), currentRevision, updateRevision)
 
 //@ func identityMatches
@@ -191,6 +192,7 @@ package statefulset
 //@ spec func inRangeE(o int, rc int, E set[int]) bool = 0 <= o && o < rc && !E[o]
 
 //@ func defaultStatefulSetControl.updateStatefulSet
+//@   lemmas count_bound, count_store, count_ext, count_mono, count_member, count_full
 //@   profiles defaulted, crd
 //@   results statusp, err
 //@   requires ssc != nil && set != nil && currentRevision != nil && updateRevision != nil
@@ -211,8 +213,39 @@ package statefulset
 //@   ghost var cpos map[int]int     -- position in condemned of snapshot pod k (witness for "every condemned snapshot pod is in the list")
 //@   ghost var sortPerm map[int]int
 //@   ghost var sortPinv map[int]int
-//@   at call append#1 before: ghost cpos[i] = len(condemned)
+//@   at call append#1 before: ghost cpos[i] = len(condemned); ghost csrc[len(condemned)] = i
+//@   ghost var csrc map[int]int     -- snapshot index of condemned[j] (before the sort)
+//@   ghost var sidx map[int]int     -- snapshot index of a snapshot pod (by reference)
+//@   ghost var rdyI set[int]        -- census: snapshot indices counted in readyReplicas / currentReplicas / updatedReplicas
+//@   ghost var curI set[int]
+//@   ghost var updI set[int]
+//@   ghost var liveI set[int] = emptyset()   -- snapshot indices not (yet) replaced in this reconcile
+//@   ghost var curL set[int]        -- curI / updI minus the pods deleted so far in this reconcile
+//@   ghost var updL set[int]
+//@   ghost var nCreated int = 0
+//@   ghost var crCur int = 0
+//@   ghost var crUpd int = 0
+//@   at call isRunningAndReady#1 before: ghost sidx[pods[i]] = i; ghost liveI[i] = true; ghost rdyI[i] = isRunningAndReadyS(pods[i])
+//@   at call isRunningAndReady#1 before: ghost curI[i] = isCreatedS(pods[i]) && !isTerminatingS(pods[i]) && revOf(pods[i]) == gCurRev
+//@   at call isRunningAndReady#1 before: ghost updI[i] = isCreatedS(pods[i]) && !isTerminatingS(pods[i]) && revOf(pods[i]) == gUpdRev
+//@   at loopexit 1: ghost curL = curI; ghost updL = updI
+//@   at call DeleteStatefulPod#1 before: assert [C12] counted1: 0 <= sidx[replicas[i]] && sidx[replicas[i]] < len(pods) && pods[sidx[replicas[i]]] == replicas[i] && liveI[sidx[replicas[i]]] && curL[sidx[replicas[i]]] == (!isTerminatingS(replicas[i]) && revOf(replicas[i]) == gCurRev) && updL[sidx[replicas[i]]] == (!isTerminatingS(replicas[i]) && revOf(replicas[i]) == gUpdRev) && !rdyI[sidx[replicas[i]]]
+//@   at call DeleteStatefulPod#2 before: assert [C12] counted2: 0 <= sidx[condemned[target]] && sidx[condemned[target]] < len(pods) && pods[sidx[condemned[target]]] == condemned[target] && curL[sidx[condemned[target]]] == (revOf(condemned[target]) == gCurRev) && updL[sidx[condemned[target]]] == (revOf(condemned[target]) == gUpdRev)
+//@   at call DeleteStatefulPod#3 before: assert [C12] counted3: inSnap(replicas[target]) ==> 0 <= sidx[replicas[target]] && sidx[replicas[target]] < len(pods) && curL[sidx[replicas[target]]] == (revOf(replicas[target]) == gCurRev)
+//@   at call DeleteStatefulPod#1 after: ghost liveI[sidx[replicas[i]]] = false; ghost curL[sidx[replicas[i]]] = false; ghost updL[sidx[replicas[i]]] = false
+//@   at call CreateStatefulPod#1 after: ghost nCreated = nCreated + 1; ghost crCur = crCur + ite(revOf(replicas[i]) == gCurRev, 1, 0); ghost crUpd = crUpd + ite(revOf(replicas[i]) == gUpdRev, 1, 0)
+//@   at call DeleteStatefulPod#2 after: ghost curL[sidx[condemned[target]]] = false; ghost updL[sidx[condemned[target]]] = false
+//@   at call DeleteStatefulPod#3 after: ghost curL = ite(inSnap(replicas[target]), store(curL, sidx[replicas[target]], false), curL); ghost crCur = crCur - ite(!inSnap(replicas[target]) && revOf(replicas[target]) == gCurRev, 1, 0)
+//@   at exit: assert [C12] acctallexit: err == nil && !gDeleting ==> status.Replicas == count(liveI, 0, len(pods)) + nCreated
+//@   at exit: assert [C12] acctrdyexit: err == nil && !gDeleting ==> status.ReadyReplicas == count(rdyI, 0, len(pods))
+//@   at exit: assert [C12] acctcurexit: err == nil && !gDeleting ==> status.CurrentReplicas == count(curL, 0, len(pods)) + crCur
+//@   at exit: assert [C12] acctupdexit: err == nil && !gDeleting ==> status.UpdatedReplicas == count(updL, 0, len(pods)) + crUpd
+//@   at exit: assert [C12] acctsubexit: err == nil && !gDeleting ==> 0 <= crCur && crCur <= nCreated && 0 <= crUpd && crUpd <= nCreated && (forall k int :: {liveI[k]} 0 <= k && k < len(pods) && (rdyI[k] || curL[k] || updL[k]) ==> liveI[k])
 //@   ensures statusp != nil || err != nil
+//@   profile defaulted ensures [C12] bounds: err == nil ==> 0 <= statusp.ReadyReplicas && statusp.ReadyReplicas <= statusp.Replicas && 0 <= statusp.CurrentReplicas && statusp.CurrentReplicas <= statusp.Replicas && 0 <= statusp.UpdatedReplicas && statusp.UpdatedReplicas <= statusp.Replicas
+//@   profile defaulted ensures [C12] generation: statusp != nil ==> statusp.ObservedGeneration == set.Generation && statusp.CurrentRevision == currentRevision.Name && statusp.UpdateRevision == updateRevision.Name
+//@   profile defaulted ensures [C12] census: err == nil && gNact == 0 ==> statusp.Replicas == len(pods) && statusp.ReadyReplicas == count(rdyI, 0, len(pods)) && statusp.CurrentReplicas == count(curI, 0, len(pods)) && statusp.UpdatedReplicas == count(updI, 0, len(pods))
+//@   profile defaulted ensures [C12] censussets: err == nil ==> (forall k int :: {pods[k]} 0 <= k && k < len(pods) ==> (rdyI[k] <==> isRunningAndReadyS(pods[k])) && (curI[k] <==> (isCreatedS(pods[k]) && !isTerminatingS(pods[k]) && revOf(pods[k]) == currentRevision.Name)) && (updI[k] <==> (isCreatedS(pods[k]) && !isTerminatingS(pods[k]) && revOf(pods[k]) == updateRevision.Name)))
 //@   profile defaulted ensures [C03] replaced: err == nil ==> (forall o int :: {gReplaceDue[o]} gReplaceDue[o] ==> gCreated[o])
 //@   profile defaulted ensures [C05] oneordinal: gMonotonic ==> gNact <= 2 && (gNact == 2 ==> (exists o int :: gReplaceDue[o] && gCreated[o] && gActOrd == o))
 //@   profile defaulted ensures [C07,C14] oneupdate: gUpdDeletes <= 1
@@ -226,16 +259,23 @@ package statefulset
 //@     invariant [C03,C05,C14] condemnedok: forall j int :: {condemned[j]} 0 <= j && j < len(condemned) ==> condemned[j] != nil && condemnedP(condemned[j])
 //@     invariant [C01,C04,C05,C07,C14] occupied: forall k int :: {pods[k]} 0 <= k && k < i && desiredG(ordOf(pods[k])) ==> replicas[ordOf(pods[k])] == pods[k]
 //@     invariant [C05,C14] condemnedall: forall k int :: {pods[k]} 0 <= k && k < i && condemnedP(pods[k]) ==> 0 <= cpos[k] && cpos[k] < len(condemned) && condemned[cpos[k]] == pods[k]
+//@     invariant [C12] census: status.ReadyReplicas == count(rdyI, 0, i) && status.CurrentReplicas == count(curI, 0, i) && status.UpdatedReplicas == count(updI, 0, i)
+//@     invariant [C12] censussets: forall k int :: {pods[k]} {liveI[k]} {rdyI[k]} {curI[k]} {updI[k]} 0 <= k && k < i ==> sidx[pods[k]] == k && liveI[k] && (rdyI[k] <==> isRunningAndReadyS(pods[k])) && (curI[k] <==> (isCreatedS(pods[k]) && !isTerminatingS(pods[k]) && revOf(pods[k]) == gCurRev)) && (updI[k] <==> (isCreatedS(pods[k]) && !isTerminatingS(pods[k]) && revOf(pods[k]) == gUpdRev))
+//@     invariant [C12] condemnedsrc: forall j int :: {condemned[j]} {csrc[j]} 0 <= j && j < len(condemned) ==> 0 <= csrc[j] && csrc[j] < i && condemned[j] == pods[csrc[j]]
+//@     invariant [C12] condemnedinc: forall a int, b int :: {csrc[a], csrc[b]} 0 <= a && a < b && b < len(condemned) ==> csrc[a] < csrc[b]
 //@   loop 2 "for ord := 0; ord < replicaCount"
 //@     invariant 0 <= ord && ord <= replicaCount && len(replicas) == replicaCount
 //@     invariant alloc: forall o int :: {replicas[o]} 0 <= o && o < replicaCount ==> allocated(replicas[o])
 //@     invariant placedord: forall o int :: {replicas[o]} 0 <= o && o < replicaCount && replicas[o] != nil ==> ordOf(replicas[o]) == o && (inSnap(replicas[o]) || isNewP(replicas[o]))
+//@     invariant labelsalloc: forall o int :: {replicas[o]} 0 <= o && o < replicaCount && replicas[o] != nil ==> allocated(replicas[o].Labels)
 //@     invariant [C03,C05,C07] snapdesired: forall o int :: {replicas[o]} 0 <= o && o < replicaCount && replicas[o] != nil && inSnap(replicas[o]) ==> desiredG(o)
 //@     invariant [C01,C04] onlydesired: forall o int :: {replicas[o]} 0 <= o && o < replicaCount && replicas[o] != nil ==> desiredG(o) && (inSnap(replicas[o]) || vacant(o))
 //@     invariant [C01,C04,C05,C07,C14] filled: forall o int :: {replicas[o]} 0 <= o && o < ord && desiredG(o) ==> replicas[o] != nil
 //@     invariant [C01,C04,C05,C07,C14] occupied: forall k int :: {pods[k]} 0 <= k && k < len(pods) && desiredG(ordOf(pods[k])) ==> replicas[ordOf(pods[k])] == pods[k]
 //@   at call Sort#1 after: assert [C03,C05,C14] condemnedok: forall j int :: {condemned[j]} 0 <= j && j < len(condemned) ==> condemned[j] != nil && condemnedP(condemned[j])
 //@   at call Sort#1 after: assert [C05,C14] condemnedall: forall k int :: {pods[k]} 0 <= k && k < len(pods) && condemnedP(pods[k]) ==> 0 <= sortPinv[cpos[k]] && sortPinv[cpos[k]] < len(condemned) && condemned[sortPinv[cpos[k]]] == pods[k]
+//@   at call Sort#1 after: assert [C12] distinct: forall a int, b int :: {condemned[a], condemned[b]} 0 <= a && a < b && b < len(condemned) ==> condemned[a] != condemned[b]
+//@   at call Sort#1 after: assert [C12] fromsnap: forall j int :: {condemned[j]} 0 <= j && j < len(condemned) ==> inSnap(condemned[j]) && pods[sidx[condemned[j]]] == condemned[j] && 0 <= sidx[condemned[j]] && sidx[condemned[j]] < len(pods)
 //@   at call Sort#1 after: assert [C05] sorted: forall a int, b int :: {condemned[a], condemned[b]} 0 <= a && a < b && b < len(condemned) ==> ordOf(condemned[a]) <= ordOf(condemned[b])
 //@   loop 3 "range replicas"
 //@     invariant unhealthy >= 0 && (unhealthy > 0 ==> firstUnhealthyPod != nil)
@@ -247,6 +287,7 @@ package statefulset
 //@     invariant alloc: forall o int :: {replicas[o]} 0 <= o && o < replicaCount ==> allocated(replicas[o])
 //@     invariant statusrange: 0 - i <= status.Replicas && status.Replicas <= len(pods) + i && 0 - i <= status.CurrentReplicas && status.CurrentReplicas <= len(pods) + i && 0 - i <= status.UpdatedReplicas && status.UpdatedReplicas <= len(pods) + i
 //@     invariant placedord: forall o int :: {replicas[o]} {count(gS, 0, o)} 0 <= o && o < replicaCount && replicas[o] != nil ==> ordOf(replicas[o]) == o && (inSnap(replicas[o]) || isNewP(replicas[o]))
+//@     invariant labelsalloc: forall o int :: {replicas[o]} 0 <= o && o < replicaCount && replicas[o] != nil ==> allocated(replicas[o].Labels)
 //@     invariant [C03,C05,C07] snapdesired: forall o int :: {replicas[o]} 0 <= o && o < replicaCount && replicas[o] != nil && inSnap(replicas[o]) ==> desiredG(o)
 //@     invariant [C01,C04] onlydesired: forall o int :: {replicas[o]} 0 <= o && o < replicaCount && replicas[o] != nil ==> desiredG(o)
 //@     invariant [C01,C04] pending: forall o int :: {replicas[o]} i <= o && o < replicaCount && replicas[o] != nil && !inSnap(replicas[o]) ==> vacant(o)
@@ -255,13 +296,44 @@ package statefulset
 //@     invariant [C03] replaced: forall o int :: {gReplaceDue[o]} gReplaceDue[o] ==> gCreated[o]
 //@     invariant [C05] mono: gMonotonic ==> gNact == 0 && (forall o int :: {replicas[o]} {count(gS, 0, o)} 0 <= o && o < i && replicas[o] != nil ==> inSnap(replicas[o]) && isRunningAndReadyS(replicas[o]) && !isTerminatingS(replicas[o]))
 //@     invariant [C03,C07] settled: forall o int :: {replicas[o]} 0 <= o && o < i && replicas[o] != nil ==> !isFailedS(replicas[o]) && !isSucceededS(replicas[o])
+//@     invariant [C12] censuskept: forall k int :: {pods[k]} {rdyI[k]} {curI[k]} {updI[k]} 0 <= k && k < len(pods) ==> (rdyI[k] <==> isRunningAndReadyS(pods[k])) && (curI[k] <==> (isCreatedS(pods[k]) && !isTerminatingS(pods[k]) && revOf(pods[k]) == gCurRev)) && (updI[k] <==> (isCreatedS(pods[k]) && !isTerminatingS(pods[k]) && revOf(pods[k]) == gUpdRev))
+//@     invariant [C12] acctall: status.Replicas == count(liveI, 0, len(pods)) + nCreated
+//@     invariant [C12] acctrdy: status.ReadyReplicas == count(rdyI, 0, len(pods))
+//@     invariant [C12] acctcur: status.CurrentReplicas == count(curL, 0, len(pods)) + crCur
+//@     invariant [C12] acctupd: status.UpdatedReplicas == count(updL, 0, len(pods)) + crUpd
+//@     invariant [C12] acctsub: 0 <= crCur && crCur <= nCreated && 0 <= crUpd && crUpd <= nCreated && (forall k int :: {liveI[k]} 0 <= k && k < len(pods) && (rdyI[k] || curL[k] || updL[k]) ==> liveI[k])
+//@     invariant [C12] acctlive: forall k int :: {pods[k]} {curL[k]} {updL[k]} {liveI[k]} 0 <= k && k < len(pods) ==> curL[k] == (curI[k] && !gDeleted[pods[k]]) && updL[k] == (updI[k] && !gDeleted[pods[k]]) && liveI[k] == !gDeleted[pods[k]]
+//@     invariant [C12] notdeleted: forall o int :: {replicas[o]} 0 <= o && o < replicaCount && replicas[o] != nil && inSnap(replicas[o]) ==> !gDeleted[replicas[o]]
+//@     invariant [C12] condemnedkept: forall j int :: {condemned[j]} 0 <= j && j < len(condemned) ==> !gDeleted[condemned[j]]
+//@     invariant [C12] createdcounted: forall o int :: {replicas[o]} 0 <= o && o < replicaCount && replicas[o] != nil && !inSnap(replicas[o]) && gCreated[o] ==> (revOf(replicas[o]) == gCurRev ==> crCur >= 1) && nCreated >= 1
+//@     invariant [C12] nocreate: gNact >= 0 && nCreated >= 0 && (gNact == 0 ==> nCreated == 0 && (forall p int :: {gDeleted[p]} !gDeleted[p]))
+//@     invariant [C12] newcreated: forall o int :: {replicas[o]} 0 <= o && o < i && replicas[o] != nil && !inSnap(replicas[o]) ==> gCreated[o]
 //@     invariant [C14] burstcreated: !gMonotonic ==> (forall o int :: {gCreated[o]} 0 <= o && o < i && vacant(o) ==> gCreated[o])
 //@   loop 6 "for target := len(condemned) - 1; target >= 0"
 //@     invariant 0 - 1 <= target && target < len(condemned) && !gDeleting && gUpdDeletes == 0
 //@     invariant statusrange: 0 - replicaCount - (len(condemned) - 1 - target) <= status.CurrentReplicas && 0 - replicaCount - (len(condemned) - 1 - target) <= status.UpdatedReplicas
 //@     invariant [C05] mono: gMonotonic ==> gNact == 0 && target == len(condemned) - 1
 //@     invariant [C03] replaced: forall o int :: {gReplaceDue[o]} gReplaceDue[o] ==> gCreated[o]
+//@     invariant [C12] censuskept: forall k int :: {pods[k]} {rdyI[k]} {curI[k]} {updI[k]} 0 <= k && k < len(pods) ==> (rdyI[k] <==> isRunningAndReadyS(pods[k])) && (curI[k] <==> (isCreatedS(pods[k]) && !isTerminatingS(pods[k]) && revOf(pods[k]) == gCurRev)) && (updI[k] <==> (isCreatedS(pods[k]) && !isTerminatingS(pods[k]) && revOf(pods[k]) == gUpdRev))
+//@     invariant [C12] acctall: status.Replicas == count(liveI, 0, len(pods)) + nCreated
+//@     invariant [C12] acctrdy: status.ReadyReplicas == count(rdyI, 0, len(pods))
+//@     invariant [C12] acctcur: status.CurrentReplicas == count(curL, 0, len(pods)) + crCur
+//@     invariant [C12] acctupd: status.UpdatedReplicas == count(updL, 0, len(pods)) + crUpd
+//@     invariant [C12] acctsub: 0 <= crCur && crCur <= nCreated && 0 <= crUpd && crUpd <= nCreated && (forall k int :: {liveI[k]} 0 <= k && k < len(pods) && (rdyI[k] || curL[k] || updL[k]) ==> liveI[k])
+//@     invariant [C12] acctlive: forall k int :: {pods[k]} {curL[k]} {updL[k]} {liveI[k]} 0 <= k && k < len(pods) ==> curL[k] == (curI[k] && !gDeleted[pods[k]]) && updL[k] == (updI[k] && !gDeleted[pods[k]]) && (gNact == 0 ==> liveI[k])
+//@     invariant [C12] createdcounted: forall o int :: {replicas[o]} 0 <= o && o < replicaCount && replicas[o] != nil && !inSnap(replicas[o]) && gCreated[o] ==> (revOf(replicas[o]) == gCurRev ==> crCur >= 1) && nCreated >= 1
+//@     invariant [C12] notdeleted: forall o int :: {replicas[o]} 0 <= o && o < replicaCount && replicas[o] != nil && inSnap(replicas[o]) ==> !gDeleted[replicas[o]]
+//@     invariant [C12] condemnedkept: forall j int :: {condemned[j]} 0 <= j && j <= target ==> !gDeleted[condemned[j]]
+//@     invariant [C12] nocreate: gNact >= 0 && nCreated >= 0 && (gNact == 0 ==> nCreated == 0 && (forall p int :: {gDeleted[p]} !gDeleted[p]))
 //@     invariant [C14] burstdeleted: !gMonotonic ==> (forall t int :: {condemned[t]} target < t && t < len(condemned) && !isTerminatingS(condemned[t]) ==> gDeleted[condemned[t]])
+//@   at loopstart 7: assert [C05] allhealthy: gMonotonic ==> (forall o int32 :: {count(gS, 0, o)} desiredG(o) ==> snapHealthyAt(o))
+//@   at loopstart 7: assert [C05] nocondemned: gMonotonic ==> (forall k int :: {gSnap[k]} 0 <= k && k < len(gSnap) ==> !condemnedP(gSnap[k]))
+//@   ghost var old7Replicas int
+//@   ghost var old7Ready int
+//@   ghost var old7Current int
+//@   ghost var old7Updated int
+//@   at loopstart 7: ghost old7Replicas = status.Replicas; ghost old7Ready = status.ReadyReplicas; ghost old7Current = status.CurrentReplicas; ghost old7Updated = status.UpdatedReplicas
 //@   loop 7 "for target := len(replicas) - 1; target >= updateMin"
 //@     invariant target <= len(replicas) - 1 && gUpdDeletes == 0 && (gMonotonic ==> gNact == 0)
+//@     invariant [C12] statusfixed: status.Replicas == old7Replicas && status.ReadyReplicas == old7Ready && status.CurrentReplicas == old7Current && status.UpdatedReplicas == old7Updated
 //@     invariant [C07] higherupdated: forall o int :: {replicas[o]} {count(gS, 0, o)} target < o && o < len(replicas) && replicas[o] != nil ==> revOf(replicas[o]) == gUpdRev && isHealthyS(replicas[o])
